@@ -3,6 +3,6 @@ CONSTANTS
   Classes = {"string", "hostport", "stringlist", "stringmap", "int", "duration", "memsize", "bool"}
   Uniform = FALSE
   Faithful = FALSE
-INVARIANTS TypeOK LosersDoNotShow WinnerShows DefaultWhenUndefined SetVarsExpanded UnsetLeftAlone OtherKindsVerbatim ValidatedIsApplied DeviationsDiffer MapMergePerKey
+INVARIANTS TypeOK LosersDoNotShow WinnerShows DefaultWhenUndefined SetVarsExpanded UnsetLeftAlone DollarLiteralsVerbatim OtherKindsVerbatim ValidatedIsApplied DeviationsDiffer MapMergePerKey
 PROPERTY InputsUntouched
 CHECK_DEADLOCK FALSE
